@@ -103,7 +103,12 @@ type Env struct {
 // Violate records the first violation of the run.
 func (e *Env) Violate(oracle, format string, args ...interface{}) {
 	if e.Viol == nil {
-		e.Viol = &Violation{Oracle: oracle, Message: fmt.Sprintf(format, args...), AtOp: e.opIndex}
+		msg := fmt.Sprintf(format, args...)
+		if e.Dir != "" {
+			// the run's scratch directory differs from process to process
+			msg = strings.ReplaceAll(msg, e.Dir, "<run-dir>")
+		}
+		e.Viol = &Violation{Oracle: oracle, Message: msg, AtOp: e.opIndex}
 	}
 }
 
